@@ -96,16 +96,25 @@ class Ctx:
                 # enough confirmed violations from this batch; the remaining rejections are counted, not re-run
                 cov['rejections_not_reconfirmed'] = cov.get('rejections_not_reconfirmed', 0) + 1
                 continue
-            self.confirm(b, kw)
+            self.confirm(b, kw, batch=cases)
         return out
 
-    def confirm(self, b, kw):
+    def confirm(self, b, kw, batch=None):
         case = b['case']
         self.nbatch += 1
         out2 = pipeline.run_cases(self.sc, self.wire, [case], name='r%d' % self.nbatch, **kw)
         same = [x for x in out2.bad if x['kind'] == b['kind']]
+        if not same and batch and len(batch) > 1:
+            # not on the single case: does it come back when the same packages are processed together again?
+            # (a defect that depends on what else is in the invocation is still a defect)
+            if not hasattr(self, '_rebatch') or self._rebatch[0] is not batch:
+                self.nbatch += 1
+                self._rebatch = (batch, pipeline.run_cases(self.sc, self.wire, batch, name='rb%d' % self.nbatch, **kw))
+            same = [x for x in self._rebatch[1].bad if x['kind'] == b['kind'] and x['case']['key'] == case['key']]
+            if same:
+                same[0]['detail'] = dict(same[0]['detail'], only_in_multi_package_invocation=True, packages_in_invocation=len(batch))
         if not same:
-            raise Broken('rejected observation for %s (%s) did not reproduce on the single case' % (case['key'], b['kind']))
+            raise Broken('rejected observation for %s (%s) did not reproduce, neither alone nor in its batch' % (case['key'], b['kind']))
         self.report(case, b['kind'], same[0]['detail'], kw)
 
     def report(self, case, kind, detail, kw=None, extra_files=None):
